@@ -102,6 +102,32 @@ fn in_ring(r: &LineString<f64>, x: f64, y: f64) -> bool {
 fn in_mp(m: &MultiPolygon<f64>, x: f64, y: f64) -> bool {
     m.0.iter().any(|p| in_ring(p.exterior(), x, y) && !p.interiors().iter().any(|h| in_ring(h, x, y)))
 }
+/// A hole of a result polygon that lies outside that polygon's own exterior (bound to the wrong shell).
+/// Returns the class of the first such hole: whether its least vertex (x, then y) is a pinch (visited twice).
+fn misbound_hole(m: &MultiPolygon<f64>, tol: f64) -> Option<&'static str> {
+    for p in &m.0 {
+        let ext: Vec<((f64, f64), (f64, f64))> = p.exterior().0.windows(2).map(|w| ((w[0].x, w[0].y), (w[1].x, w[1].y))).collect();
+        for h in p.interiors() {
+            let n = h.0.len().saturating_sub(1);
+            let outside = h.0[..n].iter().any(|q| {
+                !in_ring(p.exterior(), q.x, q.y) && ext.iter().map(|sg| pt_seg((q.x, q.y), sg.0, sg.1)).fold(f64::INFINITY, f64::min) > tol
+            });
+            if outside {
+                let least = h.0[..n].iter().fold(h.0[0], |m, q| if (q.x, q.y) < (m.x, m.y) { *q } else { m });
+                // the vertex the overlay engine anchors the hole at lies on more ring segments of the result
+                // than its own two incident edges: the hole touches itself, another hole or an island there
+                let visits: usize = m.0.iter().flat_map(|p2| std::iter::once(p2.exterior()).chain(p2.interiors().iter()))
+                    .map(|r| r.0.windows(2).filter(|w| pt_seg((least.x, least.y), (w[0].x, w[0].y), (w[1].x, w[1].y)) <= tol).count()).sum();
+                return Some(if visits > 2 { "least-vertex-is-a-touch-point" } else { "other" });
+            }
+        }
+    }
+    None
+}
+/// even-odd parity over every ring of the result: the covered region whichever shell each hole is bound to
+fn in_mp_parity(m: &MultiPolygon<f64>, x: f64, y: f64) -> bool {
+    m.0.iter().flat_map(|p| std::iter::once(p.exterior()).chain(p.interiors().iter())).filter(|r| in_ring(r, x, y)).count() % 2 == 1
+}
 fn pt_seg(p: (f64, f64), a: (f64, f64), b: (f64, f64)) -> f64 {
     let (dx, dy) = (b.0 - a.0, b.1 - a.1);
     let l2 = dx * dx + dy * dy;
@@ -244,6 +270,13 @@ impl Property for C04 {
             if let Ok(r2) = guard(std::panic::AssertUnwindSafe(|| ga.boolean_op(&gb, *op))) {
                 obs.expect(r2 == r, &format!("{name}|boolean_op-differs"), || ctx());
             }
+            // (0) every hole lies within its own exterior; with a mis-bound hole the per-polygon membership
+            //     failures are consequences of that one root cause, so membership is then judged by
+            //     even-odd parity over all rings (the covered region whichever shell owns each hole)
+            let misbound = misbound_hole(&r, 4.0 * delta_l * s);
+            if let Some(class) = misbound {
+                obs.fail(format!("{name}|hole-outside-its-shell|{class}"), format!("result {:?}; {}", r, ctx()));
+            }
             // (1) membership of robust cell samples
             let mut bad = None;
             for (cl, rb) in cells.iter().zip(robust.iter()) {
@@ -251,7 +284,7 @@ impl Property for C04 {
                     continue;
                 }
                 let q = c.xf.apply_f(cl.0, cl.1);
-                let got = in_mp(&r, q.x, q.y);
+                let got = if misbound.is_some() { in_mp_parity(&r, q.x, q.y) } else { in_mp(&r, q.x, q.y) };
                 let want = f(cl.3, cl.4);
                 obs.cmp();
                 if got != want {
@@ -324,6 +357,10 @@ impl Property for C04 {
                         let want_area: f64 = cells.iter().filter(|cl| cl.3 || cl.4).map(|cl| cl.2).sum::<f64>() * s * s;
                         let got = mp_area(&u);
                         obs.expect((got - want_area).abs() <= area_tol, "unary_union|area", || format!("got {got} want {want_area}; members {:?}; {}", members, ctx()));
+                        let misbound = misbound_hole(&u, 4.0 * delta_l * s);
+                        if let Some(class) = misbound {
+                            obs.fail(format!("unary_union|hole-outside-its-shell|{class}"), format!("result {:?}; {}", u, ctx()));
+                        }
                         let mut bad = None;
                         for (cl, rb) in cells.iter().zip(robust.iter()) {
                             if !*rb {
@@ -331,7 +368,8 @@ impl Property for C04 {
                             }
                             let q = c.xf.apply_f(cl.0, cl.1);
                             obs.cmp();
-                            if in_mp(&u, q.x, q.y) != (cl.3 || cl.4) {
+                            let got = if misbound.is_some() { in_mp_parity(&u, q.x, q.y) } else { in_mp(&u, q.x, q.y) };
+                            if got != (cl.3 || cl.4) {
                                 bad = Some((cl.0, cl.1));
                                 break;
                             }
@@ -405,9 +443,9 @@ impl Property for C04 {
             }
             if okc[0] && okc[1] {
                 let (li, lo) = (lens[0], lens[1]);
-                obs.expect(li >= len_i * s - ltol && li <= (len_i + len_b) * s + ltol, "clip|inside-length", || format!("kept {li}, exact interior {} boundary {}; line {}; {}", len_i * s, len_b * s, wkt(&c.line), ctx()));
-                obs.expect(lo >= len_e * s - ltol && lo <= (len_e + len_b) * s + ltol, "clip(invert)|outside-length", || format!("kept {lo}, exact exterior {} boundary {}; line {}; {}", len_e * s, len_b * s, wkt(&c.line), ctx()));
-                obs.expect(li + lo >= total * s - ltol && li + lo <= (total + len_b) * s + ltol, "clip|total-length-not-conserved", || format!("{li} + {lo} vs {}; line {}; {}", total * s, wkt(&c.line), ctx()));
+                obs.expect(li >= (len_i + len_b) * s - ltol && li <= (len_i + len_b) * s + ltol, "clip|inside-length", || format!("kept {li}, exact interior {} boundary {}; line {}; {}", len_i * s, len_b * s, wkt(&c.line), ctx()));
+                obs.expect(lo >= len_e * s - ltol && lo <= len_e * s + ltol, "clip(invert)|outside-length", || format!("kept {lo}, exact exterior {} boundary {}; line {}; {}", len_e * s, len_b * s, wkt(&c.line), ctx()));
+                obs.expect(li + lo >= total * s - ltol && li + lo <= total * s + ltol, "clip|total-length-not-conserved", || format!("{li} + {lo} vs {}; line {}; {}", total * s, wkt(&c.line), ctx()));
             }
         }
     }
